@@ -275,6 +275,21 @@ def astype(x, t):
             return Sym(sym.to_real(x.e))
         f = x.fn
         return SArr(x.shape, lambda *i: py_float(None, f(*i)), "real")
+    if name.startswith("timedelta64[") and isinstance(x, SArr) and getattr(x, "time_unit", None):
+        # counts of one time unit converted to a coarser / finer one: NumPy floors
+        new = name[len("timedelta64["):-1]
+        ratio = fractions.Fraction(sym.TIME_UNIT_US[new]) / sym.TIME_UNIT_US[x.time_unit]
+        f = x.copy().fn
+        if ratio >= 1 and ratio.denominator == 1:
+            k = int(ratio)
+            out = SArr(x.shape, lambda *i: mk(lift(f(*i)) / k), "int")          # z3 integer division floors for k > 0
+        elif ratio.numerator == 1:
+            k = ratio.denominator
+            out = SArr(x.shape, lambda *i: f(*i) * k, "int")
+        else:
+            raise OutsideSubset("astype(%s) from %s" % (name, x.time_unit))
+        out.time_unit = new
+        return out
     raise OutsideSubset("astype(%s)" % name)
 
 
@@ -321,6 +336,21 @@ def to_sarr(v):
                    for x in items):
                 dt = "int"
             return SArr((n,), fn, dt)
+        if items and all(isinstance(x, SArr) and x.ndim == 1 for x in items) \
+                and all(sym.same_dim(x.shape[0], items[0].shape[0]) for x in items):
+            # a list of k rows of equal (possibly symbolic) length: the (k, n) array of them
+            rows = [x.copy().fn for x in items]
+            n = items[0].shape[0]
+
+            def fn2(i, j, rows=rows):
+                if isinstance(i, Sym):
+                    r = rows[-1](j)
+                    for t_ in range(len(rows) - 2, -1, -1):
+                        r = sym.ite(i == t_, rows[t_](j), r)
+                    return r
+                return rows[i](j)
+            dts = {x.dtype for x in items}
+            return SArr((len(items), n), fn2, "int" if dts == {"int"} else ("bool" if dts == {"bool"} else "real"))
         raise OutsideSubset("nested symbolic list -> array")
     return v
 
@@ -499,6 +529,21 @@ def setitem(arr, key, val):
 
         def fn(i, j):
             return sym.ite(mk(lift(i) == lift(row)), sym.index_into(val, (j,), 1), old(i, j))
+        arr.fn = fn
+        return
+    if len(key) == 1 and isinstance(key[0], (list, np.ndarray)) and not deep_sym(key[0]) and isinstance(val, SArr) \
+            and val.ndim == arr.ndim:
+        # a[[i0, i1, ...]] = v : row v[t] goes to row i_t (later entries win, as in NumPy)
+        rows = [int(x) for x in np.asarray(key[0]).ravel()]
+        for r_ in rows:
+            _bounds_obligation(r_ if r_ >= 0 else arr.shape[0] + r_, arr.shape[0])
+        vf = val.fn
+
+        def fn(i, *rest):
+            out = old(i, *rest)
+            for t_, r_ in enumerate(rows):
+                out = sym.ite(mk(lift(i) == lift(r_ if r_ >= 0 else arr.shape[0] + r_)), vf(t_, *rest), out)
+            return out
         arr.fn = fn
         return
     raise OutsideSubset("array store with key %r" % (key,))
